@@ -52,6 +52,11 @@ def convergence(t, qs, qe, bs, be, t_late, tf):
 
 
 def run(ctx):
+    if ctx.shard == ctx.nshards - 1:
+        # the by-name calling convention of the shipped functions this property is about (see vlib/named.py)
+        from .. import named
+        named.monitor(ctx, ['attitude.sim:measure_accel', 'attitude.sim:measure_gyro', 'attitude.sim:measure_mag', 'attitude.sim:simulate', 'attitude.sim:get_state', 'attitude.sim:rotation_error'], ctx.rng("named"))
+        ctx.require("call_by_argument_name", "(by-name calls never evaluated)")
     with contextlib.redirect_stdout(io.StringIO()):
         from cyecca.estimate.attitude import launch
         import cyecca.sim.uros as uros
